@@ -11,6 +11,7 @@ import (
 	"encoding/binary"
 	"fmt"
 	"strconv"
+	"strings"
 	"syscall"
 
 	libaudit "github.com/elastic/go-libaudit/v2"
@@ -591,6 +592,24 @@ func historyMonitor(c KCase, run *clientRun) string {
 		seq = o.SeqBefore + uint32(len(o.Sent)) // follow what was actually sent
 	}
 
+	// C08, C16: a status that GetStatus returned is the caller's: it still reads as the kernel laid it out for that
+	// request after the client has gone on to other requests (a caller keeps it to compute the growth of the lost
+	// counter, or reads its fields between the Set* calls it decides on)
+	for i, op := range c.Ops {
+		o := run.Obs[i]
+		if op.K == "getstatus" && o.Status != nil && strings.HasPrefix(o.Data, "st:") {
+			if now := "st:" + wordsHex(statusWords(o.Status)); now != o.Data {
+				return fmt.Sprintf("C08,C16: the status GetStatus returned at op %d read %s when returned and reads %s after the later operations on the client", i, o.Data, now)
+			}
+		}
+	}
+	for i := range c.Ops {
+		for j := i + 1; j < len(c.Ops); j++ {
+			if a, b := run.Obs[i].Status, run.Obs[j].Status; a != nil && a == b {
+				return fmt.Sprintf("C08,C16: GetStatus at op %d and at op %d returned the same *AuditStatus: the earlier result is overwritten by the later reply", i, j)
+			}
+		}
+	}
 	// C17: rule data returned by GetRules stays unchanged by later receives
 	for k := range run.Kept {
 		if run.KeptRule[k] && !bytes.Equal(run.Kept[k], run.KeptSnap[k]) {
